@@ -44,7 +44,7 @@ def main():
     m = {
         "version": 1,
         "setup_cmd": "./check --setup",
-        "hooks": old["hooks"],
+        "hooks": dict(old["hooks"], source_commits=__import__("subprocess").run(["git", "-C", "/repo", "log", "--grep", "^verif:", "--format=%h"], stdout=-1, text=True).stdout.split()),
         "engines": [{"name": "props", "path": "harness/props", "serves_properties": sorted(CONFIG),
                      "kind_free_text": "rapid property tests (go1.26.8, testing/synctest), one test binary built from /repo's working tree with -tags verif; ./check shards it over processes"}],
         "checks": checks,
